@@ -424,6 +424,9 @@ func renderAndRun(e *Engine, rep *FuncReport, ob *Obligation, vals map[string]st
 	body.WriteString("}\n")
 	var imps []string
 	for p, a := range rd.imports {
+		if !strings.Contains(body.String(), a+".") {
+			continue
+		}
 		imps = append(imps, fmt.Sprintf("\t%s %q\n", a, p))
 	}
 	sort.Strings(imps)
